@@ -56,6 +56,7 @@ class Contract:
         exit_asserts=(),
         stop_at=None,
         start_at=None,
+        volatile=(),
     ):
         self.target = target
         self.params = dict(params or {})
@@ -89,6 +90,8 @@ class Contract:
         self.exit_asserts = list(exit_asserts)  # cuts: proved from the path condition at exit, then used for the ensures
         self.start_at = start_at  # region contract: execution starts at the first top-level statement starting with this text;
         # parameters and the locals declared in `locals=` are arbitrary values of their types there
+        self.volatile = list(volatile)  # field keys written concurrently by another thread: every read is havocked under the rely
+        # condition 'None until set once, then stable'
         self.stop_at = stop_at  # region contract: the function is cut before the first statement starting with this text
         self.bounded = bounded  # reason string: contract kept for run-time monitors only (not proved)
         self.out_params = dict(out_params or {})  # param name -> spec of its value at exit (in-place mutation)
